@@ -14,7 +14,7 @@ STORE_FAMILIES = {
     "C09": ["bufedge", "fleet"],                         # the probe of the edge a non-blocking node decides on (can_put exact)
     "C10": ["pos", "buf", "bufedge", "fleet", "slot", "cbelt"], "C11": ["bufedge", "buf", "fleet"], "C12": ["slot", "cbelt"], "C13": ["slot", "cbelt"], "C14": ["fleet"],
     "C18": ["pos", "bufedge", "fleet", "slot", "cbelt"], "C19": ["pos", "buf"],
-    "C20": ["prq", "fleet", "cbelt"],
+    "C20": ["pos", "buf", "bufedge", "prq", "fleet", "slot", "cbelt"],
 }
 # judge property ids that decide each property at store level
 JUDGE_PROPS = {p: [p] for p in STORE_FAMILIES}
@@ -77,7 +77,7 @@ def node_stage(pid, tier, seed, known, cov, violations, known_hits):
         violations.append((path, "no-failing-input-found"))
 
 MIXED_PROPS = {"C03", "C19", "C20"}
-FLOW_PROPS = {"C01", "C02", "C04", "C11", "C12", "C14"}      # per-edge flow judges on node-driven factories (one run each)
+FLOW_PROPS = {"C01", "C02", "C04", "C10", "C11", "C12", "C14"}      # per-edge flow judges on node-driven factories (one run each)
 
 def mixed_stage(pid, tier, seed, cov, violations, known_hits=None):
     """factories with Fleet / conveyor / Buffer edges: run twice here and in two fresh interpreters with different hash seeds"""
@@ -240,6 +240,35 @@ def wakeup_mismatch(r, fam):
         if best is None or len(oj) < len(best[1]): best = (hj, oj, dj, msg)
     return best
 
+def rejected_call_mismatch(r, fam):
+    """C07 read off a divergence, on the real code alone: a call that was rejected with RuntimeError must leave the store untouched, so the
+    same history WITHOUT the rejected calls has to answer every other call in the same way.  The diverging histories are run again without
+    their rejected calls; a later answer that changes is a concrete failing input (no model involved in the verdict)."""
+    if fam == "bufedge": return None      # a rejected put may or may not draw from the delay distribution (documented tolerance of the draw counter)
+    best = None
+    for (j, dj) in sorted(r.div, key=lambda x: len(r.traces[x[0]][1]))[:40]:
+        hj, oj, ilj = r.traces[j]
+        n = min(len(oj), dj + 6)
+        ops = list(oj[:n])
+        try: full = run_impl(hj, ops)
+        except Exception: continue
+        rej = [k for k in range(min(n, len(full))) if ops[k][0] in ("put", "get", "cp", "cg") and full[k] is not None and full[k].startswith("err RuntimeError")]
+        if not rej: continue
+        keep = [k for k in range(n) if k not in rej]
+        try: without = run_impl(hj, [ops[k] for k in keep])
+        except Exception: continue
+        for pos, k in enumerate(keep):
+            if pos >= len(without) or k >= len(full): break
+            if without[pos] != full[k]:
+                before = [x for x in rej if x < k]
+                if not before: break
+                msg = (f"a rejected call is not side-effect free: with the rejected call(s) at line(s) {before} ({'; '.join(' '.join(map(str, ops[x])) for x in before[:3])}) "
+                       f"the later call at line {k} ({' '.join(map(str, ops[k]))}) answers '{full[k]}', without them it answers '{without[pos]}' "
+                       f"(same history on the real code, only the rejected calls removed)")
+                if best is None or k < best[2]: best = (hj, ops, k, msg)
+                break
+    return best
+
 def check_property(pid, tier, seed):
     t0 = time.time()
     say(f"[check {pid}] tier={tier} seed={seed} repo={REPO} src={src_tree_hash()}")
@@ -338,6 +367,9 @@ def check_property(pid, tier, seed):
                 except Exception: timing = None
             if not found and not timing and pid in ("C04", "C10", "C13"):
                 try: timing = wakeup_mismatch(r, fam)
+                except Exception: timing = None
+            if not found and not timing and pid == "C07":
+                try: timing = rejected_call_mismatch(r, fam)
                 except Exception: timing = None
             if timing:
                 hj, oj, k, msg = timing
